@@ -228,7 +228,7 @@ class Verdict:
         # instance-count floor: a rule that matches too little is broken, not passing
         for rid, (n, what) in self.expected.items():
             got = self.counts.get(rid, 0)
-            if got < n:
+            if got < n and not self.violations:
                 raise AnalysisBroken(
                     'rule %s matched %d instance(s), expected at least %d (%s)'
                     % (rid, got, n, what))
